@@ -189,7 +189,9 @@ func bytesCore(ops *typeOps) {
 		}
 		vrt.Reach("ok")
 	} else if !rok && err != nil {
-		if d.Missing != "" {
+		if d.Missing != "" && !d.OkOpen {
+			// (in the open region - an empty container announcing a non-Thrift element type code was skipped - frugal may
+			// reject the message for that reason instead; which error is reported is then open as well)
 			vrt.Check(vrt.ErrClass(err) == 101, "C09 missing required field is an INVALID_DATA protocol error")
 			vrt.Check(vrt.ErrMsgContains(err, d.Missing), "C09 error names the missing required field")
 		}
